@@ -1489,8 +1489,9 @@ func (gqm *GroupQuotaManager) deleteQuotaNoLock(quota *v1alpha1.ElasticQuota) er
 	// update resource keys
 	gqm.updateResourceKeyNoLock()
 
-	// update request
-	deltaReq := quotav1.Subtract(v1.ResourceList{}, quotaInfo.CalculateInfo.Request)
+	// update request: the parent was credited with the max-limited request (see getLimitRequestNoLock),
+	// so that is what has to be taken back, not the un-limited request.
+	deltaReq := quotav1.Subtract(v1.ResourceList{}, quotaInfo.getLimitRequestNoLock())
 	deltaNonPreemptibleRequest := quotav1.Subtract(v1.ResourceList{}, quotaInfo.CalculateInfo.NonPreemptibleRequest)
 	if !quotav1.IsZero(deltaReq) || !quotav1.IsZero(deltaNonPreemptibleRequest) {
 		gqm.updateGroupDeltaRequestNoLock(quotaInfo.ParentName, deltaReq, deltaNonPreemptibleRequest, -1)
